@@ -26,6 +26,39 @@ func (h *Hub) PairingDetailForSki(ski string) *api.ConnectionStateDetail {
 	return service.ConnectionStateDetail()
 }
 
+// notify the application about the pairing detail of a SKI
+//
+// The notifications are delivered one after the other and each one reports
+// the detail being current at the time of its delivery. This way the application
+// may not see every intermediate state, but it never gets an older state after a
+// newer one, and the last notification always shows the current state
+func (h *Hub) notifyPairingDetailUpdate(ski string) {
+	h.muxPairingUpdate.Lock()
+	h.pairingDetailUpdates = append(h.pairingDetailUpdates, ski)
+	if h.pairingDetailUpdateRunning {
+		// the running delivery will also process this one
+		h.muxPairingUpdate.Unlock()
+		return
+	}
+	h.pairingDetailUpdateRunning = true
+	h.muxPairingUpdate.Unlock()
+
+	for {
+		h.muxPairingUpdate.Lock()
+		if len(h.pairingDetailUpdates) == 0 {
+			h.pairingDetailUpdateRunning = false
+			h.muxPairingUpdate.Unlock()
+			return
+		}
+		nextSki := h.pairingDetailUpdates[0]
+		h.pairingDetailUpdates = h.pairingDetailUpdates[1:]
+		h.muxPairingUpdate.Unlock()
+
+		// no lock is held here, so the application may call the hub from within the callback
+		h.hubReader.ServicePairingDetailUpdate(nextSki, h.ServiceForSKI(nextSki).ConnectionStateDetail())
+	}
+}
+
 // maps ShipMessageExchangeState to PairingState
 func (h *Hub) mapShipMessageExchangeState(state model.ShipMessageExchangeState, _ string) api.ConnectionState {
 	var connState api.ConnectionState
@@ -120,7 +153,7 @@ func (h *Hub) RegisterRemoteSKI(ski string) {
 	// locally initiated
 	service.ConnectionStateDetail().SetState(api.ConnectionStateQueued)
 
-	h.hubReader.ServicePairingDetailUpdate(ski, service.ConnectionStateDetail())
+	h.notifyPairingDetailUpdate(ski)
 
 	h.mdns.RequestMdnsEntries()
 }
@@ -136,7 +169,7 @@ func (h *Hub) UnregisterRemoteSKI(ski string) {
 
 	service.ConnectionStateDetail().SetState(api.ConnectionStateNone)
 
-	h.hubReader.ServicePairingDetailUpdate(ski, service.ConnectionStateDetail())
+	h.notifyPairingDetailUpdate(ski)
 
 	if existingC := h.connectionForSKI(ski); existingC != nil {
 		existingC.CloseConnection(true, 4500, "User close")
@@ -170,5 +203,5 @@ func (h *Hub) CancelPairingWithSKI(ski string) {
 	service.ConnectionStateDetail().SetState(api.ConnectionStateNone)
 	service.SetTrusted(false)
 
-	h.hubReader.ServicePairingDetailUpdate(ski, service.ConnectionStateDetail())
+	h.notifyPairingDetailUpdate(ski)
 }
